@@ -350,6 +350,8 @@ def run_concurrent(prefix, program, gate_receive=False):
             m = dict(msgs[min(k, len(msgs) - 1)])
             if m["type"] == "websocket.disconnect":
                 st["disconnect_returned"] = True
+            if m["type"] == "websocket.receive" and k < len(msgs):
+                st.setdefault("frames_delivered", []).append(m.get("text", m.get("bytes")))
             return m
 
         async def send(message):
@@ -378,7 +380,8 @@ def run_concurrent(prefix, program, gate_receive=False):
             await asyncio.gather(*[job(i, ops) for i, ops in enumerate(program)])
         task = s.loop.create_task(main())
         x = s.drive(task, prefix)
-        x.obs = {"stuck": x.obs["stuck"], "trace": x.obs["trace"], "forwarded": forwarded, "outcomes": outcomes, "app_state": ws.application_state.value, "states": states, "late_receives": st.get("late_receives", 0)}
+        x.obs = {"stuck": x.obs["stuck"], "trace": x.obs["trace"], "forwarded": forwarded, "outcomes": outcomes, "app_state": ws.application_state.value, "states": states, "late_receives": st.get("late_receives", 0), "frames_delivered": st.get("frames_delivered", []),
+                 "frames_returned": [v for i, out in sorted(outcomes.items()) for (kind_, v), op in zip(out, program[i]) if kind_ == "ok" and op in ("receive_text", "receive_bytes")]}
     return x
 
 
@@ -389,6 +392,8 @@ def judge_concurrent(o):
     probs = ["forwarded sequence illegal: " + p + f" (forwarded {[m['type'] for m in o['forwarded']]})"] if p else []
     if o.get("late_receives"):
         probs.append(f"{o['late_receives']} receive() issued to the server after websocket.disconnect was delivered")
+    if not o["stuck"] and sorted(map(repr, o.get("frames_delivered", []))) != sorted(map(repr, o.get("frames_returned", []))):
+        probs.append(f"returned frames {o['frames_returned']} are not exactly the frames the server delivered {o['frames_delivered']} (a frame was consumed without being returned, or returned twice)")
     for (c0, a0), (c1, a1) in zip(o["states"], o["states"][1:]):
         if c1 < c0 or a1 < a0:
             probs.append(f"state moved backwards: client {c0}->{c1}, application {a0}->{a1}")
